@@ -45,6 +45,13 @@ type xlFunc struct {
 	Opaque  []string // callees ("pkg.Name") that are NOT translated: they become parameters of the generated definition
 	Flatten bool     // method on a pointer-to-struct receiver: every selector chain `recv.a.b` becomes a parameter `recv_a_b` (assumes the chain is non-nil)
 	Rec     bool     // directly self-recursive: leading Nat fuel, see translate_rec.go
+	// --- translate_dom.go (composite algorithms over the DOM API) ---
+	Nullable []string // parameters of a DOM interface type that may be nil: `Option …` (all others are assumed non-nil)
+	NullRes  bool     // the (single, DOM-typed) result may be nil: `Option …`
+	Acc      string   // a parameter `res *[]T` that the function appends to: threaded through as `List T` and returned
+	RecFuel  string   // the function is recursive: LEAN expression over its parameters bounding the recursion depth (fuel of `<Lean>_rec`)
+	RecGroup string   // mutually recursive functions (consecutive whitelist entries with the same group) are emitted in one `mutual` block
+	External string   // already emitted in another generated file under this qualified Lean name: translated for the call interface only
 }
 
 var xlWhitelist = []xlFunc{
@@ -98,15 +105,27 @@ type xlWorld struct {
 	structs map[*types.Named]string   // generated structures
 	sorder  []*types.Named
 	out     []string // definitions in order
+	dom     bool     // translate_dom.go features: DOM interface types, every function in the Res monad
+	recs    map[*types.Func]*xlRec
 }
 
 type xlDone struct {
-	lean      string
-	monadic   bool
-	nparams   int
-	flatKeys  []string // flattened-receiver selector chains, in parameter order (translate_rec.go)
+	lean    string
+	monadic bool
+	nparams int
+	f       *xlFunc
+	flat    []xlFlat // flattened-receiver parameters (in order): a caller passes its own parameter of the same key
+	nopaque int
+	sig     *types.Signature
+	// --- translate_rec.go ---
+	flatKeys  []string // flattened-receiver selector chains, in parameter order
 	flatTypes []string
 	rec       bool
+}
+
+type xlFlat struct {
+	key string
+	typ string
 }
 
 type xlImporter struct {
@@ -185,6 +204,14 @@ func (p *xlPkg) find(recv, name string) *ast.FuncDecl {
 }
 
 func genFuncs(repo string) (string, error) {
+	hdr := "/- GENERATED by /verif/extract (translate.go) from the repository's sources — do not edit.\n" +
+		"   Shallow Go→Lean translation of the whitelisted functions over YtkModel/GoPrelude.lean.\n" +
+		"   Equivalence with the hand-written model: theorems `*_generated_eq_model` in YtkProps/Cxx.lean. -/\n" +
+		"import YtkModel.GoPrelude\n\nset_option linter.unusedVariables false\n\nnamespace Ytk.Generated.Funcs\nopen Ytk\n\n"
+	return genFrom(repo, xlWhitelist, false, hdr, "end Ytk.Generated.Funcs\n")
+}
+
+func genFrom(repo string, whitelist []xlFunc, dom bool, header, footer string) (string, error) {
 	repo, _ = filepath.Abs(repo)
 	cwd, _ := os.Getwd()
 	if err := os.Chdir(repo); err != nil {
@@ -192,29 +219,47 @@ func genFuncs(repo string) (string, error) {
 	}
 	defer os.Chdir(cwd)
 	w := &xlWorld{fset: token.NewFileSet(), pkgs: map[string]*xlPkg{}, tpkgs: map[string]*types.Package{},
-		done: map[*types.Func]*xlDone{}, structs: map[*types.Named]string{}, repo: repo}
+		done: map[*types.Func]*xlDone{}, structs: map[*types.Named]string{}, repo: repo, dom: dom, recs: map[*types.Func]*xlRec{}}
 	w.base = importer.ForCompiler(w.fset, "source", nil).(types.ImporterFrom)
-	for i := range xlWhitelist {
-		f := &xlWhitelist[i]
-		p, err := w.load(repo, f.Pkg)
-		if err != nil {
+	for i := 0; i < len(whitelist); {
+		// a maximal run of entries with the same non-empty RecGroup is one mutual block
+		j := i + 1
+		for whitelist[i].RecGroup != "" && j < len(whitelist) && whitelist[j].RecGroup == whitelist[i].RecGroup {
+			j++
+		}
+		var fds []*ast.FuncDecl
+		var ps []*xlPkg
+		for k := i; k < j; k++ {
+			f := &whitelist[k]
+			p, err := w.load(repo, f.Pkg)
+			if err != nil {
+				return "", err
+			}
+			fd := p.find(f.Recv, f.Name)
+			if fd == nil {
+				return "", fmt.Errorf("whitelisted function %s.%s.%s not found", f.Pkg, f.Recv, f.Name)
+			}
+			fds, ps = append(fds, fd), append(ps, p)
+		}
+		if err := w.registerRecs(whitelist[i:j], ps, fds); err != nil {
 			return "", err
 		}
-		fd := p.find(f.Recv, f.Name)
-		if fd == nil {
-			return "", fmt.Errorf("whitelisted function %s.%s.%s not found", f.Pkg, f.Recv, f.Name)
+		var group []string
+		for k := i; k < j; k++ {
+			f := &whitelist[k]
+			txt, err := w.translateFunc(repo, ps[k-i], f, fds[k-i])
+			if err != nil {
+				return "", fmt.Errorf("%s.%s: %v", f.Pkg, f.Name, err)
+			}
+			if f.External == "" {
+				group = append(group, txt)
+			}
 		}
-		txt, err := w.translateFunc(repo, p, f, fd)
-		if err != nil {
-			return "", fmt.Errorf("%s.%s: %v", f.Pkg, f.Name, err)
-		}
-		w.out = append(w.out, txt)
+		w.out = append(w.out, w.assembleGroup(whitelist[i:j], group)...)
+		i = j
 	}
 	var b strings.Builder
-	b.WriteString("/- GENERATED by /verif/extract (translate.go) from the repository's sources — do not edit.\n")
-	b.WriteString("   Shallow Go→Lean translation of the whitelisted functions over YtkModel/GoPrelude.lean.\n")
-	b.WriteString("   Equivalence with the hand-written model: theorems `*_generated_eq_model` in YtkProps/Cxx.lean. -/\n")
-	b.WriteString("import YtkModel.GoPrelude\n\nset_option linter.unusedVariables false\n\nnamespace Ytk.Generated.Funcs\nopen Ytk\n\n")
+	b.WriteString(header)
 	for _, n := range w.sorder {
 		b.WriteString(w.structText(n))
 	}
@@ -222,7 +267,7 @@ func genFuncs(repo string) (string, error) {
 		b.WriteString(t)
 		b.WriteString("\n")
 	}
-	b.WriteString("end Ytk.Generated.Funcs\n")
+	b.WriteString(footer)
 	return b.String(), nil
 }
 
@@ -244,6 +289,11 @@ func init() {
 }
 
 func (w *xlWorld) leanType(t types.Type) (string, error) {
+	if w.dom {
+		if s, ok, err := w.domLeanType(t); ok || err != nil {
+			return s, err
+		}
+	}
 	switch x := t.(type) {
 	case *types.Basic:
 		switch x.Kind() {
@@ -304,10 +354,17 @@ func (w *xlWorld) structText(n *types.Named) string {
 	fmt.Fprintf(&b, "/-- Go struct %s.%s -/\nstructure %s where\n", n.Obj().Pkg().Name(), n.Obj().Name(), w.structs[n])
 	for i := 0; i < st.NumFields(); i++ {
 		t, _ := w.leanType(st.Field(i).Type())
-		fmt.Fprintf(&b, "  %s : %s\n", st.Field(i).Name(), t)
+		fmt.Fprintf(&b, "  %s : %s\n", leanField(st.Field(i).Name()), t)
 	}
 	b.WriteString("  deriving DecidableEq, Repr\n\n")
 	return b.String()
+}
+
+func leanField(n string) string {
+	if leanKeywords[n] {
+		return n + "_"
+	}
+	return n
 }
 
 func tupleType(ts []string) string {
